@@ -23,7 +23,7 @@ import (
 func TestTokenEdit(t *testing.T) {
 	harness.Check(t, "token-edit", 8000, 300000, func(rt *rapid.T) {
 		v := rapid.SampledFrom([]px.Ver{px.V56, px.V74}).Draw(rt, "version")
-		o := progs.Options(v)
+		o := progs.StructuralOptions(v)
 		c := progs.Draw(rt, v, o, 1, 4)
 		src := append([]byte{}, c.G.Render(c.Root, progs.Policy(rt, phpgen.PolicyFull, nil)).Src...)
 		r := px.Parse(append([]byte{}, src...), v, true)
